@@ -6,7 +6,7 @@ import re
 from ..framework import Check
 from .. import blocklib as bl, lib
 
-LINE_POOL = ["head", "END", "x END y", "", "data 1", "--", "B", "STOP"]
+LINE_POOL = ["head", "END", "x END y", "", "data 1", "--", "B", "STOP", "média é €"]
 CR_POOL = ["a\r", "x\ry END", "\r"]
 
 
@@ -34,7 +34,7 @@ class CHECK(Check):
     entry = "SECTIONFILE"
     theorems = ["C13_total_roundtrip", "C13_declared_order", "C13_handoff", "C13_leftovers"]
     rule = ("section lists of 0-4 raw sections (consuming a fixed number 0-3 of lines, or lines up to and including the first "
-            "one matching a pattern) x text contents from empty to longer than the sections consume, with and without final "
+            "one matching a pattern) x text contents from empty to longer than the sections consume, read from memory or (a third) from a utf-8 file on disk, with and without final "
             "newline: every content of <=4 lines (quick: <=3) over an 8-line pool for 12 fixed section lists (complete), plus "
             "random lists/contents of up to 12 lines. Observed: element types and raw data of SectionFile.read(content).data and "
             "the output of write. non-trivial = content shorter than the declared sections expect, or leftovers; distinct = hash")
@@ -61,9 +61,17 @@ class CHECK(Check):
         from cfinterface.components.defaultsection import DefaultSection
         secs = [bl.mk_section_class(sd, i) for i, sd in enumerate(case["secs"])]
         F = bl.mk_sectionfile_class(secs)
+        import os, hashlib
+        arg = case["content"]
+        if int(hashlib.sha1(repr(case).encode()).hexdigest(), 16) % 3 == 0 and "\r" not in arg and arg:
+            d = os.path.join(lib.SCRATCH, "tmp_c13")
+            os.makedirs(d, exist_ok=True)
+            arg = os.path.join(d, "in.txt")
+            with open(arg, "w", encoding="utf-8", newline="") as fh:
+                fh.write(case["content"])
         try:
             with lib.budget(5000 + 600 * (len(case["content"]) + 1)):
-                f = F.read(case["content"])
+                f = F.read(arg)
                 elems = bl.canon_raw(f.data, DefaultSection, cap=len(case["content"]) + len(secs) + 5)
                 buf = io.StringIO()
                 f.write(buf)
